@@ -81,6 +81,7 @@ func getRig(c Case) (*rigT, error) {
 			return nil, err
 		}
 		b.Respond = respond
+		b.NoKeepAlive() // (a backend taken down for a case must refuse, not die under a reused idle connection)
 		r.be = append(r.be, b)
 		eps = append(eps, stack.Endpoint{Name: fmt.Sprintf("e%d", i), URL: b.URL(), Type: "openai-compatible", Priority: 100})
 	}
